@@ -132,6 +132,34 @@ def run(ctx):
         fname = "/data/out.npz"
         ms = []
         seen_members = set()
+
+        def verify(pf, m, prefix, I=None, fname=None):
+            I = I_cur[0] if I is None else I
+            fname = "/data/out.npz" if fname is None else fname
+            for how in ("from_file", "load"):
+                tag = f"{prefix}:{how}:postfix={pf}"
+                try:
+                    if how == "from_file":
+                        cls = public(ctx, I, "pydrex.minerals.Mineral")
+                        got = I.call(I.getattr(cls, "from_file"), (fname,) if pf is None else (fname, pf))
+                    else:
+                        got = driver.make_mineral(I, "olivine", "olivine_B", "matrix_diffusion", 5, label="tgt", nsnap=1, symbolic_n=False)
+                        I.call(I.getattr(got, "load"), (fname,) if pf is None else (fname, pf))
+                except RaiseSig as r:
+                    ctx.ob("C17.roundtrip", tag, False, f"{how} raises {r.exc.typename} (line {getattr(r.exc.node, 'lineno', '?')})", floc if how == "from_file" else lloc)
+                    continue
+                bad = []
+                for fld in ("phase", "fabric", "regime"):
+                    if ordinal(got.attrs.get(fld)) != ordinal(m.attrs[fld]):
+                        bad.append(f"{fld}: {got.attrs.get(fld)!r} != {m.attrs[fld]!r}")
+                for fld in ("fractions", "orientations"):
+                    a, b = got.attrs.get(fld), m.attrs[fld]
+                    if not (isinstance(a, list) and len(a) == len(b) and all(same_cells(x, y) for x, y in zip(a, b))):
+                        bad.append(f"{fld} differ")
+                if how == "from_file" and ordinal(got.attrs.get("n_grains")) != ordinal(m.attrs["n_grains"]):
+                    bad.append(f"n_grains {got.attrs.get('n_grains')!r} != {m.attrs['n_grains']!r}")
+                ctx.ob("C17.roundtrip", tag, not bad, "; ".join(bad), floc if how == "from_file" else lloc)
+        I_cur = [I]
         for i, pf in enumerate(postfixes):
             ph, fb, rg = cases[i % len(cases)]
             m = driver.make_mineral(I, ph, fb, rg, 4 + i, label=f"s{i}", nsnap=(2, 3, 7)[i % 3], symbolic_n=False)
@@ -156,31 +184,12 @@ def run(ctx):
             else:
                 ctx.ob("C17.members", "whole file", any(e[0] == "savez" and sorted(e[2]) == ["fractions", "meta", "orientations"] for e in ev),
                        f"events {ev}", sloc)
+            if postfixes in (("p1", "p2", "p3"), ("a", "", "b"), (None,)):
+                # interleaved history: everything saved so far is read back before the next mineral is saved into the same archive
+                for j in range(i + 1):
+                    verify(postfixes[j], ms[j], f"postfixes={postfixes}:after save {i + 1}")
         for i in reversed(range(len(postfixes))):
-            pf, m = postfixes[i], ms[i]
-            for how in ("from_file", "load"):
-                tag = f"postfixes={postfixes}:{how}:postfix={pf}"
-                try:
-                    if how == "from_file":
-                        cls = public(ctx, I, "pydrex.minerals.Mineral")
-                        got = I.call(I.getattr(cls, "from_file"), (fname,) if pf is None else (fname, pf))
-                    else:
-                        got = driver.make_mineral(I, "olivine", "olivine_B", "matrix_diffusion", 5, label="tgt", nsnap=1, symbolic_n=False)
-                        I.call(I.getattr(got, "load"), (fname,) if pf is None else (fname, pf))
-                except RaiseSig as r:
-                    ctx.ob("C17.roundtrip", tag, False, f"{how} raises {r.exc.typename} (line {getattr(r.exc.node, 'lineno', '?')})", floc if how == "from_file" else lloc)
-                    continue
-                bad = []
-                for fld in ("phase", "fabric", "regime"):
-                    if ordinal(got.attrs.get(fld)) != ordinal(m.attrs[fld]):
-                        bad.append(f"{fld}: {got.attrs.get(fld)!r} != {m.attrs[fld]!r}")
-                for fld in ("fractions", "orientations"):
-                    a, b = got.attrs.get(fld), m.attrs[fld]
-                    if not (isinstance(a, list) and len(a) == len(b) and all(same_cells(x, y) for x, y in zip(a, b))):
-                        bad.append(f"{fld} differ")
-                if how == "from_file" and ordinal(got.attrs.get("n_grains")) != ordinal(m.attrs["n_grains"]):
-                    bad.append(f"n_grains {got.attrs.get('n_grains')!r} != {m.attrs['n_grains']!r}")
-                ctx.ob("C17.roundtrip", tag, not bad, "; ".join(bad), floc if how == "from_file" else lloc)
+            verify(postfixes[i], ms[i], f"postfixes={postfixes}")
     ctx.floor("C17.roundtrip", 14)
     # ---- dtype discipline
     I = make_interp(ctx, Store())
